@@ -500,7 +500,7 @@ func (root *Root) resolveField(
 
 	if field.ConType == nil {
 		field.ConType = t
-		ea = append(ea, field.sortArgs()...)
+		ea = append(ea, field.checkArgs()...)
 		if 0 < len(ea) {
 			// Not resolvable in this container. Leave the container type
 			// unset so the check is repeated, and reported, every time.
@@ -710,8 +710,12 @@ TOP:
 				}
 			}
 		case method != nil:
-			args := root.formReflectArgs(ov, vars, field)
-			mva := fd.method.Call(args)
+			var args []reflect.Value
+			if args, err = root.formReflectArgs(ov, vars, field, fd, method); err != nil {
+				ea = append(ea, resWarn(field.line, field.col, "%s", err))
+				break
+			}
+			mva := method.Call(args)
 			switch len(mva) {
 			case 1:
 				value = mva[0].Interface()
@@ -728,19 +732,65 @@ TOP:
 	return
 }
 
-func (root *Root) formReflectArgs(ov reflect.Value, vars map[string]interface{}, field *Field) (args []reflect.Value) {
-	args = make([]reflect.Value, 0, len(field.Args)+1)
+// formReflectArgs builds the arguments for a call of the method bound to the
+// field. The arguments are placed in the order of the field definition, which
+// is the order of the method parameters. An argument that was not provided or
+// is null becomes the zero value of the parameter.
+func (root *Root) formReflectArgs(
+	ov reflect.Value,
+	vars map[string]interface{},
+	field *Field,
+	fd *FieldDef,
+	method *reflect.Value) (args []reflect.Value, err error) {
+
+	mt := method.Type()
+	args = make([]reflect.Value, 0, mt.NumIn())
 	args = append(args, ov)
-	// Build the args by combining provided args and variable values as
-	// appropriate.
-	for _, av := range field.Args {
-		if vr, ok := av.Value.(Var); ok && vars != nil {
-			args = append(args, reflect.ValueOf(vars[string(vr)]))
-		} else {
-			args = append(args, reflect.ValueOf(av.Value))
+	for _, a := range fd.args.list {
+		if mt.NumIn() <= len(args) {
+			break
 		}
+		pt := mt.In(len(args))
+		var v interface{}
+		if av := field.getArg(a.N); av != nil {
+			v = av.Value
+			if vr, ok := v.(Var); ok {
+				v = vars[string(vr)]
+			}
+		}
+		rv := reflect.ValueOf(v)
+		switch {
+		case !rv.IsValid():
+			rv = reflect.Zero(pt)
+		case rv.Type().AssignableTo(pt):
+		case reflectConvertible(rv.Type(), pt):
+			rv = rv.Convert(pt)
+		default:
+			return nil, fmt.Errorf("%w: a %T can not be used as the %s argument of %s", ErrMeta, v, a.N, field.Name)
+		}
+		args = append(args, rv)
+	}
+	if len(args) != mt.NumIn() {
+		return nil, fmt.Errorf("%w: %s takes %d arguments but the field %s defines %d",
+			ErrMeta, mt, mt.NumIn()-1, field.Name, fd.args.Len())
 	}
 	return
+}
+
+func reflectConvertible(from, to reflect.Type) bool {
+	numeric := func(k reflect.Kind) bool {
+		switch k {
+		case reflect.Int, reflect.Int8, reflect.Int16, reflect.Int32, reflect.Int64,
+			reflect.Uint, reflect.Uint8, reflect.Uint16, reflect.Uint32, reflect.Uint64,
+			reflect.Float32, reflect.Float64:
+			return true
+		}
+		return false
+	}
+	if numeric(to.Kind()) {
+		return numeric(from.Kind())
+	}
+	return to.Kind() == reflect.String && from.Kind() == reflect.String
 }
 
 func (root *Root) resolveInline(
